@@ -4,7 +4,7 @@
 //
 // Inputs: every member sequence up to length 3 (quick) / 4 (thorough) over 15 boundary values
 // (no value, 0, +-1, -5, 7, int32 min/max and +-1, 2^32-1, 2^32, +-2^63, 2^64-1 — the last two replaced by
-// int64-representable neighbours on the direct path) x names {a, b, a again}, for enumeration and
+// int64-representable neighbours on the direct path) x names {a, b, c}, for enumeration and
 // for bits, (1) directly through Set/SetNext and (2) through YANG text, Modules.Parse and
 // Modules.Process reading Entry.Type.Enum/Bit; odd argument spellings (base prefixes, leading
 // zeros, underscores, white space, junk) on the text path; seeded random longer sequences.
@@ -290,7 +290,7 @@ func judge(c tcase, g, s string) (bool, string) {
 	return true, "Go's tables are the RFC 7950 assignment"
 }
 
-var namesPool = []string{"a", "b", "a"}
+var namesPool = []string{"a", "b", "c"}
 
 var textVals = []string{"nil", "0", "1", "-1", "-5", "7", "-2147483648", "-2147483649", "2147483647", "2147483648", "4294967295", "4294967296",
 	"9223372036854775808", "-9223372036854775808", "18446744073709551615"}
@@ -489,8 +489,8 @@ func main() {
 	res.Evaluations = int64(len(cases))
 	res.DistinctNontrivial = nontrivial
 	res.Exhaustive = true
-	res.Rule = fmt.Sprintf("complete enumeration of member sequences of length 1..%d (direct Set/SetNext) and 1..3 (YANG text through Parse/Process) over 15 boundary values x names {a, b, a again} "+
-		"(45 choices per member), for enumeration and for bits; plus %d cases with odd argument spellings on the text path and %d seeded random sequences of length 4..10 over 6 names. "+
+	res.Rule = fmt.Sprintf("complete enumeration of member sequences of length 1..%d (direct Set/SetNext) and 1..3 (YANG text through Parse/Process) over 15 boundary values x names {a, b, c} "+
+		"(45 choices per member, so duplicate names and three distinct names both occur), for enumeration and for bits; plus %d cases with odd argument spellings on the text path and %d seeded random sequences of length 4..10 over 6 names. "+
 		"Every Go answer (errors as member index + class, Names, Values, NameMap, ValueMap, point lookups) is compared with the compiled model and judged against the RFC 7950 assignment. "+
 		"distinct_nontrivial = distinct cases with at least two members (the assignment rule is about earlier members)", maxLen, oddCount, nRand)
 	res.Distribution["enumerated_sequences"] = enumerated
